@@ -912,6 +912,23 @@ def edit_case(draw):
 # exhaustive ops over all chunkings of small shapes
 
 
+def enum_pad_stat(tier):
+    """pad with a statistic over `stat_length` edge elements: lengths 1, 2, the whole axis and BEYOND the axis (NumPy then
+    uses the whole axis), per side, for every chunking."""
+    shapes = [[5], [3, 4]] if tier == "quick" else [[5], [2], [3, 4], [4, 3]]
+    i = 0
+    for shape in shapes:
+        nd = len(shape)
+        n0 = shape[0]
+        for ch in A.all_chunkings(shape):
+            for mode in ("maximum", "minimum", "mean"):
+                for sl in (1, 2, n0, n0 + 2, [n0 + 2, 1], [1, n0 + 2], [[n0 + 3, n0 + 1]] + [[1, 9]] * (nd - 1)):
+                    for pw in ([[2, 2]] + [[0, 1]] * (nd - 1), [[0, 3]] + [[1, 0]] * (nd - 1)):
+                        i += 1
+                        arr = {"shape": shape, "dtype": "i8" if i % 2 else "f8", "seed": i % 83, "fill": "small", "chunks": ch}
+                        yield mk("pad", [arr], {"pad_width": pw, "mode": mode, "stat_length": sl})
+
+
 def enum_ops(tier):
     shapes = [[4], [5], [3, 3], [4, 2]] if tier == "quick" else [[4], [5], [6], [3, 3], [4, 2], [4, 3], [2, 2, 2]]
     i = 0
@@ -960,6 +977,8 @@ SUBCHECKS = [
         doc="reshape: all chunkings of small shapes x all aligned merge/split targets (plus size-1 axes) x merge_chunks on/off"),
     Sub("ops-enum", check, kind="enum", cases=enum_ops, nontrivial=nontrivial, classes=classes, exhaustive=True,
         doc="fixed list of ~45 op/argument combinations over all chunkings of (4,), (5,), (3,3), (4,2); two-array ops over chunking pairs"),
+    Sub("pad-stat-length", check, kind="enum", cases=enum_pad_stat, nontrivial=nontrivial, classes=classes, exhaustive=True,
+        doc="pad(mode=maximum|minimum|mean, stat_length=1, 2, axis length, beyond the axis, per side) x pad widths x all chunkings == NumPy"),
     Sub("reshape", check, strategy=lambda tier: reshape_case(), n={"quick": 1200, "thorough": 40000}, nontrivial=nontrivial, classes=classes,
         doc="random reshape targets incl. -1, size-1 axes, merge_chunks, limit, method/int spellings, ravel/flatten"),
     Sub("reshape-blockwise", check_reshape_blockwise, strategy=lambda tier: reshape_blockwise_case(), n={"quick": 500, "thorough": 10000},
